@@ -15,7 +15,7 @@ from vlib import nondet
 from vlib.dsl import *
 from vlib.build import build
 
-NDES = 9
+NDES = 10
 
 
 def design(sel, w):
@@ -48,6 +48,9 @@ def design(sel, w):
     elif sel == 6:  # two sub-bundles of one nested bundle on swapped ports + whole nested references
         insts = [Inst("i", two, {"p": BRef("nn", ("b",)), "q": BRef("nn", ("c",)), "g": BRef("nn", ("z",))}),
                  Inst("j", two, {"p": BRef("nn", ("c",)), "q": BRef("nn", ("b",)), "g": Sig("t")})]
+    elif sel == 9:  # several anonymous bundles on the ports of one instance (and of a second one, swapped)
+        insts = [Inst("i", two, {"p": Anon((("x", Sig("s")), ("y", Sig("t")))), "q": Anon((("x", BRef("bb", ("x",))), ("y", Sig("t")))), "g": Sig("t")}),
+                 Inst("j", two, {"q": Anon((("x", Sig("s")), ("y", BRef("bb", ("y",))))), "p": Anon((("y", Sig("t")), ("x", Sig("s")))), "g": Sig("t")})]
     elif sel == 8:  # a loop made of port references only (no signal, no open port): the alphabetically first instance has two ports in it
         insts = [Inst("i", three, {"a": PRef("j", "a"), "b": PRef("i", "a"), "c": Sig("s"), "g": Sig("t")}),
                  Inst("j", three, {"a": PRef("i", "b"), "b": Sig("s"), "c": Sig("s"), "g": Sig("t")})]
